@@ -2,5 +2,6 @@ pub mod alloc;
 pub mod chanrun;
 pub mod containers;
 pub mod life;
+pub mod log;
 pub mod seq;
 pub mod uni;
